@@ -105,6 +105,50 @@ def call_api(api, fcn, y0, params, method, opts):
     return y, rec
 
 
+def phi_shift(case, prob, y0):
+    """constant added to the objective handed to minimize (case key "phishift", absent = none): kind "at_y0" makes the objective VALUE at the
+    initial guess equal to `delta` (0.0: exactly zero, the value is computed by the same function on the same tensor)"""
+    ps = case.get("phishift")
+    if not ps or ps["kind"] == "none":
+        return 0.0
+    v0 = float(prob.make_fcn("minimize")(y0, *prob.params()))
+    return -v0 + float(ps["delta"])
+
+
+def shifted_traced(fcn, shift, trace):
+    """the user's objective plus a constant; records (point, value) of every evaluation when `trace` is a list"""
+    def obj(y, *p):
+        v = fcn(y, *p)
+        if shift != 0.0:
+            v = v + shift
+        if trace is not None:
+            trace.append((y.detach().clone(), float(v)))
+        return v
+    return obj
+
+
+def stagnation_test_met(trace, user_opts, slack):
+    """gd/adam document OR-type stopping criteria on the change of f and of x between iterations (f_tol / f_rtol: absolute / relative tolerance of
+    the output f, x_tol / x_rtol: of the norm of x; defaults 0, 1e-8, 0, 1e-8).  A silent return therefore needs two consecutively evaluated
+    points a, b with |f_b - f_a| < f_tol or < f_rtol max|f| or |x_b - x_a| < x_tol or < x_rtol max|x|.  Returns None when such a pair exists.
+    `slack` = 1 + 1000 N eps covers the solver forming the differences / norms in the working precision."""
+    def opt(k, default):       # None = not passed = the documented default
+        return default if user_opts.get(k) is None else user_opts[k]
+    f_tol, f_rtol, x_tol, x_rtol = opt("f_tol", 0.0), opt("f_rtol", 1e-8), opt("x_tol", 0.0), opt("x_rtol", 1e-8)
+    best = (float("inf"), float("inf"))
+    for (xa, va), (xb, vb) in zip(trace[:-1], trace[1:]):
+        df = abs(vb - va)
+        dx = float((xb - xa).norm())
+        fm = max(abs(va), abs(vb))
+        xm = max(float(xa.norm()), float(xb.norm()))
+        if df < f_tol * slack or df < f_rtol * fm * slack or dx < x_tol * slack or dx < x_rtol * xm * slack:
+            return None
+        if not (df != df):
+            best = min(best, (df, dx))
+    return "none of the %d consecutive pairs of evaluated points meets |df| < f_tol=%g, |df| < f_rtol=%g |f|, |dx| < x_tol=%g or |dx| < x_rtol=%g |x| (smallest |df|=%.3e with |dx|=%.3e)" % (
+        max(len(trace) - 1, 0), f_tol, f_rtol, x_tol, x_rtol, best[0], best[1])
+
+
 def in_class(prob, case, method, opts, N, res0):
     """adequate options on a contractive problem: the call must be silent.
     Algorithm parameters are the defaults (alpha, max_rank, line search, msize, beta, lmbda); only tolerances vary.
@@ -136,6 +180,12 @@ def check_one(case, prob, api, method, opts, y0, ystar, labels, g):
     counter = gen.Counter()
     fcn = prob.make_fcn(api, counter)
     params = prob.params()
+    trace = None
+    shift = 0.0
+    if api == "minimize":
+        shift = phi_shift(case, prob, y0)
+        trace = []
+        fcn = shifted_traced(fcn, shift, trace if method in ("gd", "adam") else None)
     N = y0.numel()
     eps = EPS[case["dtype"]]
     user_opts = {k: v for k, v in opts.items() if not k.startswith("_")}
@@ -192,9 +242,17 @@ def check_one(case, prob, api, method, opts, y0, ystar, labels, g):
             if not res <= user_opts["f_rtol"] * res0 * slack:
                 return violation("silent_but_frtol_not_met", "%s silent, f_rtol=%g, |f(y0)|=%.6e but residual %.6e" % (
                     tag, user_opts["f_rtol"], res0, res), labels), info
+    if api == "minimize" and method in ("gd", "adam") and user_opts.get("maxiter") != 0:
+        # the stagnation test the caller asked for was met between two consecutively evaluated points (maxiter=0 is the documented
+        # 'wrap the backward only' use: no test is made)
+        msg = stagnation_test_met(trace, user_opts, 1 + 1000 * N * eps)
+        info["f_at_y0"] = trace[0][1] if trace else None
+        if msg is not None:
+            return violation("silent_but_stagnation_test_not_met", "%s silent (evals=%d, objective value at y0 = %.3e, opts=%r): %s" % (
+                tag, counter.n, trace[0][1] if trace else float("nan"), user_opts, msg), labels), info
     if api == "minimize":
         phi = prob.phi(y)
-        mag = abs(phi0) + abs(phi) + float(y0.norm()) ** 2 * prob.const["lmax"] + 1.0
+        mag = abs(phi0) + abs(phi) + abs(shift) + float(y0.norm()) ** 2 * prob.const["lmax"] + 1.0
         rounding = 64 * N * eps * mag
         claim = None
         if method in RF:
@@ -219,6 +277,14 @@ def check_one(case, prob, api, method, opts, y0, ystar, labels, g):
     bound = None
     if method in RF or method == "anderson_acc":
         bound = res / sigma
+    elif method == "gd" and opts.get("_class") == "ftol" and case["dtype"] != "f32":
+        # only the absolute f criterion is active: two consecutive evaluated iterates x_{k-1}, x_k (k >= 1) had |phi(x_{k-1}) - phi(x_k)| < f_tol
+        # (computed values: true decrease < f_tol + 2 rounding).  Descent lemma, step s <= 1/lmax: phi(x_{k-1}) - phi(x_k) >= (s/2) |grad phi(x_{k-1})|^2,
+        # so |grad phi(x_{k-1})|^2 < 2 (f_tol + 2 rounding)/s and phi(x_{k-1}) - phi* <= |grad|^2/(2 sigma) < (f_tol + 2 rounding)/(s sigma).  The iteration
+        # descends monotonically and the returned point is the last iterate or an evaluated point with a smaller objective value:
+        # |y-y*|^2 <= 2 (phi(y)-phi*)/sigma <= 2 (f_tol + 2 rounding)/(s sigma^2) + 2 rounding/sigma.  The VALUE of phi (zero at y0, shifted by a constant)
+        # does not enter: the criterion is on the change between iterations.
+        bound = math.sqrt(2 * (user_opts["f_tol"] + 2 * rounding) / (user_opts["step"] * sigma * sigma) + 2 * rounding / sigma)
     elif method == "gd" and opts.get("_class") and case["dtype"] != "f32":
         # the last step x_{k+1} = x_k - step grad(x_k) had |x_{k+1}-x_k| < x_tol, and |I - step H| <= 1, so |grad phi(x_{k+1})| < x_tol/step;
         # the returned point is x_{k+1} or an evaluated point with a smaller objective value:
@@ -254,6 +320,15 @@ def run_single(case):
     labels.append("f_tol=%s" % opts.get("f_tol"))
     v, info = check_one(case, prob, api, method, opts, y0, ystar, labels, g)
     labels.append("outcome=" + ("warned" if info.get("warned") else "silent"))
+    if api == "minimize":
+        ps = case.get("phishift") or {"kind": "none", "delta": 0.0}
+        labels.append("phishift=%s%s" % (ps["kind"], ("/%g" % ps["delta"]) if ps["kind"] != "none" else ""))
+        if method in ("gd", "adam"):
+            labels.append("%s:f_tol=%s,_class=%s" % (method, opts.get("f_tol"), opts.get("_class")))
+            ft = opts.get("f_tol") or 0.0
+            if info.get("f_at_y0") is not None and ft > 0 and not info.get("warned"):
+                # silent runs with an absolute f_tol whose objective VALUE at the initial guess is below that f_tol
+                labels.append("silent_with_|f(y0)|<f_tol:%s=%s" % (method, abs(info["f_at_y0"]) < ft))
     if info.get("must"):
         labels.append("must_converge=%s" % method)
     if info.get("outside_ball"):
@@ -274,13 +349,19 @@ def run_allmethods(case):
     y0 = make_y0(case, prob, ystar, g)
     api = case["api"]
     labels = base_labels(case, prob) + ["f_tol=%s" % case["f_tol"], "line_search=%s" % case["line_search"]]
+    if api == "minimize":
+        ps = case.get("phishift") or {"kind": "none", "delta": 0.0}
+        labels += ["gdmode=%s" % case.get("gdmode", "xtol"), "phishift=%s%s" % (ps["kind"], ("/%g" % ps["delta"]) if ps["kind"] != "none" else "")]
     N = y0.numel()
     pts = {}
     evals = 0
     for method in METHODS[api]:
         if method == "adam":
-            continue        # no derived accuracy bound for adam (asserted in task "single": shape, dtype, objective)
-        if method == "gd":
+            continue        # no derived accuracy bound for adam (asserted in task "single": shape, dtype, objective, stagnation test)
+        if method == "gd" and case.get("gdmode") == "ftol":
+            step = case["gdstep"] / prob.const["lmax"]
+            opts = {"step": step, "gamma": 0.0, "maxiter": 5000, "f_tol": case["f_tol"], "f_rtol": 0.0, "x_rtol": 0.0, "x_tol": 0.0, "_class": "ftol"}
+        elif method == "gd":
             step = case["gdstep"] / prob.const["lmax"]
             opts = {"step": step, "gamma": 0.0, "maxiter": 5000, "f_tol": 0.0, "f_rtol": 0.0, "x_rtol": 0.0,
                     "x_tol": case["f_tol"] * step, "_class": True}
@@ -408,8 +489,14 @@ def problem_st(draw, tier, api, contractive=None):
         r = draw(st.sampled_from([1e-2, 1e-5, 1e-8]))
     else:
         r = 0.0
-    return {"api": api, "fam": fam, "n": n, "layout": layout, "batch": batch, "dtype": dtype, "L": L, "spread": spread,
+    case = {"api": api, "fam": fam, "n": n, "layout": layout, "batch": batch, "dtype": dtype, "L": L, "spread": spread,
             "bscale": bscale, "y0": {"kind": y0kind, "r": r}, "seed": draw(st.integers(0, 2 ** 31 - 1))}
+    if api == "minimize":
+        # the objective VALUE at the initial guess: as the family gives it (exactly 0 at y0 = 0: no constant term), or shifted by a constant so
+        # that it is exactly 0 / tiny (below the absolute f_tol settings) at y0
+        kind = draw(st.sampled_from(["none", "none", "at_y0", "at_y0"]))
+        case["phishift"] = {"kind": kind, "delta": draw(st.sampled_from([0.0, 0.0, 3e-11, -3e-11, 3e-9])) if kind == "at_y0" else 0.0}
+    return case
 
 
 @st.composite
@@ -423,7 +510,7 @@ def single_st(draw, tier="quick"):
 
 
 @st.composite
-def opts_st(draw, case, method, gd_modes=("default", "stable", "stable", "class")):
+def opts_st(draw, case, method, gd_modes=("default", "stable", "stable", "class", "class_ftol")):
     f32 = case["dtype"] == "f32"
     opts = {}
     plain = draw(st.sampled_from([True, False, False]))      # plain = default algorithm parameters, only tolerances vary
@@ -460,7 +547,12 @@ def opts_st(draw, case, method, gd_modes=("default", "stable", "stable", "class"
             opts["step"] = draw(st.sampled_from([0.3, 1.0, 1.5])) * (1 - gamma) / lmax
             opts["maxiter"] = draw(st.sampled_from([None, 2, 20, 3000]))
             opts["x_tol"] = draw(st.sampled_from([None, 1e-6]))
-            opts["f_tol"] = draw(st.sampled_from([None, 1e-10]))
+            opts["f_tol"] = draw(st.sampled_from([None, 1e-10, 1e-6]))
+        elif mode == "class_ftol":
+            # only the ABSOLUTE criterion on the change of f is active
+            step = draw(st.sampled_from([0.5, 1.0])) / lmax
+            opts.update({"gamma": 0.0, "step": step, "maxiter": draw(st.sampled_from([5000, 5000, 3, 10])), "f_tol": draw(st.sampled_from([1e-6, 1e-8, 1e-10])),
+                         "f_rtol": 0.0, "x_rtol": 0.0, "x_tol": 0.0, "_class": "ftol"})
         else:
             step = draw(st.sampled_from([0.5, 1.0])) / lmax
             opts.update({"gamma": 0.0, "step": step, "maxiter": draw(st.sampled_from([5000, 5000, 3, 10])), "f_tol": 0.0, "f_rtol": 0.0, "x_rtol": 0.0,
@@ -469,6 +561,9 @@ def opts_st(draw, case, method, gd_modes=("default", "stable", "stable", "class"
         opts["step"] = draw(st.sampled_from([None, 1e-2, 1e-1]))
         opts["maxiter"] = draw(st.sampled_from([None, None, 0, 1, 2, 100, 3000]))
         opts["x_tol"] = draw(st.sampled_from([None, 1e-6]))
+        opts["f_tol"] = draw(st.sampled_from([None, None, 1e-6, 1e-10]))
+        if opts["f_tol"] is not None and draw(st.booleans()):
+            opts["f_rtol"], opts["x_rtol"] = 0.0, 0.0       # the absolute f criterion alone (plus x_tol when drawn)
     return opts
 
 
@@ -515,6 +610,8 @@ def allmethods_st(draw, tier="quick"):
     if case["y0"]["kind"] in ("near", "solution") and draw(st.booleans()):
         case["y0"] = {"kind": "ball", "r": 0.5}
     case["gdstep"] = draw(st.sampled_from([0.5, 1.0]))
+    if api == "minimize":
+        case["gdmode"] = draw(st.sampled_from(["xtol", "ftol"]))
     return case
 
 
